@@ -256,6 +256,20 @@ func (c *Canary) DrainTxQuiesced() [][]byte {
 	return out
 }
 
+// VerifConnState reports the initial send sequence number and the state of the first
+// state table entry for the connection (what StateTable.Get would return). A peer behind
+// the real receive loop cannot see the SYN-ACK (transmit() cannot put frames on a
+// socketpair), this is how it learns the sequence number it has to acknowledge.
+func (c *Canary) VerifConnState(src net.IP, sport uint16, dst net.IP, dport uint16) (iss uint32, state string, ok bool) {
+	s := c.stateTable.Get(src, dst, sport, dport)
+	if s == nil {
+		return 0, "", false
+	}
+	s.m.Lock()
+	defer s.m.Unlock()
+	return s.InitialSendSequenceNumber, s.State.String(), true
+}
+
 // VerifStateCount returns the number of occupied state table slots.
 func (c *Canary) VerifStateCount() int {
 	n := 0
